@@ -271,6 +271,10 @@ static const char* POOLOPN[] = {"loadGrammar(dtd,cache)", "loadGrammar(dtd,nocac
                                 "resetCachedGrammarPool", "second parser on the same pool", "parse(malformed)", "loadGrammar(broken xsd,cache)"};
 static const int NPOOLOP = sizeof(POOLOPN) / sizeof(POOLOPN[0]);
 static int g_pooldepth = 3;
+static bool g_pool_strict = false;   // witness run: execute also what the listed defect below explains
+// Listed defect: a parser constructed while the pool is locked takes the pool's XMLSynchronizedStringPool, which unlockPool() deletes; any later use
+// of that parser reads freed memory.  Histories stop at that point (counted), the space "poolwitness" executes the minimal one strictly.
+static const int POOL_WITNESS[] = {7, 10, 8, 5};
 static const char* POOLSCN[] = {"IGXMLScanner", "DGXMLScanner", "SGXMLScanner"};
 static std::string pool_label(uint64_t idx) {
     int api = (int)(idx % 2), sc = (int)((idx / 2) % 3);
@@ -280,7 +284,7 @@ static std::string pool_label(uint64_t idx) {
 }
 static void run_pool(uint64_t idx, Ctx& c) {
     int api = (int)(idx % 2), sc = (int)((idx / 2) % 3);
-    std::vector<int> ops = word_at(idx / 6, NPOOLOP, g_pooldepth);
+    std::vector<int> ops = g_pool_strict ? std::vector<int>(POOL_WITNESS, POOL_WITNESS + 4) : word_at(idx / 6, NPOOLOP, g_pooldepth);
     static const std::string DTD = "<!ELEMENT r (c*)><!ATTLIST r a CDATA 'd' i ID #IMPLIED><!ELEMENT c (#PCDATA)><!ENTITY e 'v'>";
     static const std::string XSDA = "<xs:schema xmlns:xs='http://www.w3.org/2001/XMLSchema' targetNamespace='urn:a' xmlns:a='urn:a' elementFormDefault='qualified'>"
                                     "<xs:element name='r'><xs:complexType><xs:sequence><xs:element name='c' type='a:T' minOccurs='0' maxOccurs='unbounded'/></xs:sequence>"
@@ -297,7 +301,8 @@ static void run_pool(uint64_t idx, Ctx& c) {
         ParseResult r; Config cfg = base_cfg(api ? (int)DOM : (int)SAX2);
         g_vfs->clear(); g_vfs->put("/v/g.dtd", DTD);
         XMLGrammarPoolImpl* pool = new (&mm) XMLGrammarPoolImpl(&mm);
-        struct P { SAX2XMLReaderImpl* s = nullptr; XercesDOMParser* d = nullptr; };
+        struct P { SAX2XMLReaderImpl* s = nullptr; XercesDOMParser* d = nullptr; bool bornLocked = false, stale = false; };
+        bool locked = false;
         std::vector<P> ps;
         Sax2H h2; h2.r = &r; h2.cfg = &cfg; h2.nsmode = true;
         Sax1H h1; h1.r = &r; h1.cfg = &cfg;
@@ -314,6 +319,7 @@ static void run_pool(uint64_t idx, Ctx& c) {
                 p.d->setErrorHandler(&h1);
                 p.d->useScanner(X16(POOLSCN[sc]).p());
             }
+            p.bornLocked = locked;
             ps.push_back(p);
         };
         mk();
@@ -331,6 +337,11 @@ static void run_pool(uint64_t idx, Ctx& c) {
         };
         for (int op : ops) {
             hist += std::string(POOLOPN[op]) + "; ";
+            bool usesParser = op != 7 && op != 8 && op != 10;
+            size_t target = op == 10 && ps.size() == 2 ? 1 - cur : cur;
+            if ((usesParser && ps[cur].stale) || (op == 10 && ps.size() == 2 && ps[target].stale && false)) {
+                if (!g_pool_strict) { c.count("known_defect:parser-created-on-locked-pool-used-after-unlock"); break; }
+            }
             switch (op) {
             case 0: load(DTD, "/v/g.dtd", Grammar::DTDGrammarType, true); break;
             case 1: load(DTD, "/v/g.dtd", Grammar::DTDGrammarType, false); break;
@@ -339,8 +350,8 @@ static void run_pool(uint64_t idx, Ctx& c) {
             case 4: load(XSDA, "/v/a.xsd", Grammar::SchemaGrammarType, false); break;
             case 5: parse(DOCA, true, false); break;
             case 6: parse(DOCD, false, true); break;
-            case 7: pool->lockPool(); break;
-            case 8: pool->unlockPool(); break;
+            case 7: pool->lockPool(); locked = true; break;
+            case 8: pool->unlockPool(); if (locked) for (auto& q : ps) if (q.bornLocked) q.stale = true; locked = false; break;
             case 9: try { if (ps[cur].s) ps[cur].s->resetCachedGrammarPool(); else ps[cur].d->resetCachedGrammarPool(); } XV_CATCH_DOCUMENTED(r) break;
             case 10: if (ps.size() < 2) mk(); cur = 1 - cur < ps.size() ? 1 - cur : cur; break;
             case 11: parse(DOCBAD, true, true); break;
@@ -377,6 +388,13 @@ int main(int argc, char** argv) {
         R.total = words_upto(6, g_itdepth); R.fn = run_initterm;
         R.describe = [](uint64_t i) { std::string s; for (int o : word_at(i, 6, g_itdepth)) s += std::to_string(o); return "{\"sequence\":" + jstr(s) + "}"; };
         R.extra_json = "\"depth\":" + std::to_string(g_itdepth);
+    } else if (space == "poolwitness") {
+        g_global = new Ledger("global");
+        XMLPlatformUtils::Initialize(XMLUni::fgXercescDefaultLocale, 0, 0, g_global);
+        g_vfs = new Vfs(); delete XMLPlatformUtils::fgFileMgr; XMLPlatformUtils::fgFileMgr = g_vfs;
+        g_pool_strict = true;
+        R.total = 6; R.fn = run_pool;
+        R.describe = [](uint64_t i) { return std::string("{\"history\":\"") + (i % 2 ? "XercesDOMParser/" : "SAX2XMLReader/") + POOLSCN[(i / 2) % 3] + ": lockPool; second parser on the same pool; unlockPool; parse(valid schema doc, use cached);\"}"; };
     } else if (space == "pool") {
         g_global = new Ledger("global");
         XMLPlatformUtils::Initialize(XMLUni::fgXercescDefaultLocale, 0, 0, g_global);
